@@ -28,7 +28,7 @@ namespace
             return o.str();
         }
     };
-    struct ChildObs { long t; int child; bool valid, modified; long lmt; std::string value; };
+    struct ChildObs { long t; int child; bool valid, modified; long lmt; std::string value; bool delta_present{false}; };
 
     struct Run
     {
@@ -103,7 +103,7 @@ namespace
                 for (int i = 0; i < 2; ++i)
                 {
                     TSOutputView ch = [&] { if constexpr (std::is_same_v<Sh, ShapeTSL>) return static_cast<const TSLOutputView &>(out).at(static_cast<std::size_t>(i)); else return static_cast<const TSBOutputView &>(out).at(static_cast<std::size_t>(i)); }();
-                    g->prod_child.push_back(ChildObs{c, i, ch.valid(), ch.modified(), rel(ch.last_modified_time()), ch.valid() ? ch.value().to_string() : std::string{"<invalid>"}});
+                    g->prod_child.push_back(ChildObs{c, i, ch.valid(), ch.modified(), rel(ch.last_modified_time()), ch.valid() ? ch.value().to_string() : std::string{"<invalid>"}, ch.delta_value().has_value()});
                 }
             }
             if (c + 1 < g->cycles + 2) sched.schedule(MIN_TD);
@@ -125,7 +125,7 @@ namespace
                     for (int i = 0; i < 2; ++i)
                     {
                         TSInputView ch = [&]() -> TSInputView { if constexpr (std::is_same_v<Sh, ShapeTSL>) return static_cast<const TSLInputView &>(x).at(static_cast<std::size_t>(i)); else return static_cast<const TSBInputView &>(x).field(i == 0 ? "a" : "b"); }();
-                        g->cons_child.push_back(ChildObs{c, i, ch.valid(), ch.modified(), rel(ch.last_modified_time()), ch.valid() ? ch.value().to_string() : std::string{"<invalid>"}});
+                        g->cons_child.push_back(ChildObs{c, i, ch.valid(), ch.modified(), rel(ch.last_modified_time()), ch.valid() ? ch.value().to_string() : std::string{"<invalid>"}, ch.delta_value().has_value()});
                     }
             }
             if (c + 1 < g->cycles + 2) sched.schedule(MIN_TD);
@@ -138,7 +138,7 @@ namespace
         static void eval(In<"x", TS<Int>, InputActivity::Passive, InputValidity::Unchecked> x, NodeScheduler sched, DateTime now)
         {
             const long c = rel(now);
-            g->bound_child.push_back(ChildObs{c, 0, x.valid(), x.modified(), rel(x.last_modified_time()), x.valid() ? x.base().value().to_string() : std::string{"<invalid>"}});
+            g->bound_child.push_back(ChildObs{c, 0, x.valid(), x.modified(), rel(x.last_modified_time()), x.valid() ? x.base().value().to_string() : std::string{"<invalid>"}, x.base().delta_value().has_value()});
             if (c + 1 < g->cycles + 2) sched.schedule(MIN_TD);
         }
     };
@@ -402,6 +402,10 @@ namespace
                             out.c04 = "child " + std::to_string(i) + " flags wrong in cycle " + std::to_string(c) + ": modified=" + std::to_string(pc.modified) + " valid=" + std::to_string(pc.valid);
                         else if (cc.modified != pc.modified || cc.valid != pc.valid || cc.value != pc.value || (pc.valid && cc.lmt != pc.lmt))
                             out.c04 = "consumer's child " + std::to_string(i) + " disagrees with the producer's in cycle " + std::to_string(c);
+                        else if (pc.valid && !pc.modified && !e.invalidation_cycle && pc.delta_present)
+                            out.c04 = "producer's child " + std::to_string(i) + ": a per-tick delta is readable in cycle " + std::to_string(c) + " in which the child was not written";
+                        else if (cc.valid && !cc.modified && !e.invalidation_cycle && cc.delta_present)
+                            out.c04 = "consumer's child " + std::to_string(i) + ": a per-tick delta is readable in cycle " + std::to_string(c) + " in which the child was not written (the producer's child has none)";
                         else if (pc.valid && pc.lmt != m.child_lmt[i])
                             out.c04 = "child " + std::to_string(i) + " last_modified_time=" + std::to_string(pc.lmt) + " expected " + std::to_string(m.child_lmt[i]);
                     }
@@ -410,7 +414,9 @@ namespace
                     {
                         const ChildObs &pc = run.prod_child.at(static_cast<std::size_t>(c * 2));
                         const ChildObs &bc = run.bound_child.at(static_cast<std::size_t>(c));
-                        if (bc.modified != pc.modified || bc.valid != pc.valid || bc.value != pc.value || (pc.valid && bc.lmt != pc.lmt))
+                        if (bc.valid && !bc.modified && !e.invalidation_cycle && bc.delta_present)
+                            out.c04 = "consumer bound to child 0: a per-tick delta is readable in cycle " + std::to_string(c) + " in which the child was not written";
+                        else if (bc.modified != pc.modified || bc.valid != pc.valid || bc.value != pc.value || (pc.valid && bc.lmt != pc.lmt))
                             out.c04 = "consumer bound to child 0 disagrees with the producer's child in cycle " + std::to_string(c) + ": producer modified=" + std::to_string(pc.modified) + " value=" + pc.value +
                                       " lmt=" + std::to_string(pc.lmt) + " consumer modified=" + std::to_string(bc.modified) + " value=" + bc.value + " lmt=" + std::to_string(bc.lmt);
                     }
